@@ -110,7 +110,13 @@ def run(out, rng, tier, args):
             r = cli.run_cli(a + extra, name="c16_%d" % fc.cid, **kw)
             got = r["outfile"] if kw.get("out_file") else r["stdout"]
             out.count("route_" + nm)
-            if r["exit"] != 0 or got != base["stdout"]:
+            # the strategies are serialised from a HashMap: the key order differs from run to run, so the
+            # *objects* are compared (exactly: one thread, same input), not the text
+            try:
+                same = r["exit"] == 0 and json.loads(got or "") == json.loads(base["stdout"])
+            except Exception:
+                same = False
+            if not same:
                 out.monitor_hits.append((fc.cid, "route %s (%s) gives exit %r and a different output than reading the file by extension"
                                          % (nm, r["cmd"], r["exit"]), dict(replay, other=r), "route"))
         # (c) thread count
